@@ -69,10 +69,14 @@ Definition new_bytes_reader (data : bytes) (bcap : N) : rstate :=
        stats := repeat 0 (N.to_nat nbuckets); sidx := 0 |}
   else new_reader fake_source.
 
-(* smallest power of two >= n (mcache.Malloc capacity); fuel 64 doublings *)
+(* The three doubling loops.  Sizes are mathematical integers here (DESIGN 4: 64-bit int, allocation
+   never fails), so each loop gets the number of doublings it can need for its argument:
+   starting from x >= 1, x * 2^(bits of n) > n.  Proofs/BufReaderP.v shows the results are >= n. *)
+Definition dbl_fuel (n : N) : nat := S (N.size_nat n).
+(* smallest power of two >= n (mcache.Malloc capacity) *)
 Fixpoint pow2ceil_from (f : nat) (p n : N) : N :=
   match f with O => p | S f' => if n <=? p then p else pow2ceil_from f' (2 * p) n end.
-Definition pow2ceil (n : N) : N := pow2ceil_from 64 1 n.
+Definition pow2ceil (n : N) : N := pow2ceil_from (dbl_fuel n) 1 n.
 (* for x ; x < n ; x *= 2 *)
 Fixpoint double_until (f : nat) (x n : N) : N :=
   match f with O => x | S f' => if x <? n then double_until f' (2 * x) n else x end.
@@ -148,25 +152,31 @@ Definition flat_rev (acc : list bytes) : bytes := fold_left (fun w b => b ++ w) 
 
 Definition loop_fuel (c : scur) : nat := S (length (c_chunks c) + length (c_rest c)).
 
+(* if cap(r.buf) == 0 { maxSize := max(stats.maxSize(), defaultBufSize); for ; maxSize < n; maxSize *= 2 {};
+                        r.buf = mcache.Malloc(0, maxSize); r.bufReadOnly = false } *)
+Definition alloc_phase (st : rstate) (n : N) : rstate :=
+  if cap st =? 0 then
+    let m0 := N.max (stats_max (stats st)) bufsz in
+    let m := double_until (dbl_fuel n) m0 n in
+    set_st st (win st) (ri st) (pow2ceil m) false (npend st) (rerr st) (src st)
+  else st.
+
+(* if n > cap(r.buf)-r.ri { for ncap = cap*2; ncap-ri < n; ncap *= 2 {}; nbuf := mcache.Malloc(ncap);
+                            if !r.bufReadOnly { pendingBuf = append(pendingBuf, r.buf) };
+                            copy(nbuf[ri:], buf[ri:]); r.buf = nbuf[:ri+cn]; r.bufReadOnly = false } *)
+Definition grow_phase (st : rstate) (n : N) : rstate :=
+  if cap st - ri st <? n then
+    let ncap := double_until_room (dbl_fuel (ri st + n)) (2 * cap st) (ri st) n in
+    set_st st (win st) (ri st) (pow2ceil ncap) false
+           (if ro st then npend st else npend st + 1) (rerr st) (src st)
+  else st.
+
 Definition acquire_slow (st : rstate) (n : N) : rstate * N :=
   match rerr st with
   | Some _ => (st, len (win st))
   | None =>
-    (* allocate *)
-    let st1 :=
-      if cap st =? 0 then
-        let m0 := N.max (stats_max (stats st)) bufsz in
-        let m := double_until 64 m0 n in
-        set_st st (win st) (ri st) (pow2ceil m) false (npend st) (rerr st) (src st)
-      else st in
-    (* grow *)
-    let st2 :=
-      if cap st1 - ri st1 <? n then
-        let ncap := double_until_room 64 (2 * cap st1) (ri st1) n in
-        set_st st1 (win st1) (ri st1) (pow2ceil ncap) false
-               (if ro st1 then npend st1 else npend st1 + 1) (rerr st1) (src st1)
-      else st1 in
-    (* read *)
+    let st2 := grow_phase (alloc_phase st n) n in
+    (* the read loop *)
     let s := src st2 in
     let c0 := cur_of s in
     let '(c', acc, _, e, m) :=
